@@ -65,3 +65,9 @@ VARIANTS += [
         E(CF, "            self.add_failures(\n                msgs,\n                reconstruction,\n                actual_path,", "            self.add_failures(\n                msgs,\n                msgs.last_reconstruction(),\n                actual_path,")],
       rule='C15-ARTEFACTS', key='check_files:'),
 ]
+
+VARIANTS += [
+    M('C15', 'artefacts-opened-without-truncation', E(CF, "        with open(filename, 'w', encoding=enc) as f:", "        with os.fdopen(os.open(filename, os.O_WRONLY | os.O_CREAT, 0o600), 'w', encoding=enc) as f:"),
+      rule='C15-ARTEFACTS', key='after-an-earlier-longer-failure'),
+    M('C15', 'refactor-artefacts-opened-with-truncation', E(CF, "        with open(filename, 'w', encoding=enc) as f:", "        with os.fdopen(os.open(filename, os.O_WRONLY | os.O_CREAT | os.O_TRUNC, 0o600), 'w', encoding=enc) as f:"), kind='refactor'),
+]
